@@ -272,8 +272,13 @@ def shard_pixels(spec, R):
     import hdc.algo  # noqa
 
     rng = np.random.default_rng([spec["seed"], 12, 2, spec["sub"]])
-    for rep in range(spec["reps"]):
-        da = make_cube(rng, nt=int(rng.choice([9, 12, 20])), ny=3, nx=4)
+    for rep in range(spec["reps"] + 1):
+        if rep == spec["reps"]:
+            # one large cube: size- or shape-gated code paths (threading, tiling) must keep pixels independent too
+            da = make_cube(rng, nt=24, ny=40, nx=40)
+            R.count("large_cube_pixel_pairs")
+        else:
+            da = make_cube(rng, nt=int(rng.choice([9, 12, 20])), ny=3, nx=4)
         ops = op_table(rng, da)
         ny, nx = da.sizes["y"], da.sizes["x"]
         perm = rng.permutation(ny * nx)
